@@ -36,6 +36,9 @@ def pipe_part(ctx):
     res = lib.run_go(ctx, "multiplex", "TestVerifC14Pipe", env={"VERIF_IN": inp})
     lib.collect_go(ctx, res)
     ctx.log("datagram pipe: %d behaviours replayed, %d violations" % (len(g.behaviours), len(res.get("violations", []))))
+    conc = lib.run_go(ctx, "multiplex", "TestVerifC14Concurrent", timeout=600)
+    lib.collect_go(ctx, conc)
+    ctx.log("concurrent senders on one stream: %d datagrams received, %d violations" % (conc["stats"].get("datagrams_received", 0), len(conc.get("violations", []))))
     # the UDP relay around the session: real client.RouteUDP on loopback sockets, concurrent proxy clients
     udp = lib.run_go(ctx, "client", "TestVerifC14RouteUDP", timeout=600)
     lib.collect_go(ctx, udp)
@@ -43,7 +46,8 @@ def pipe_part(ctx):
         raise lib.Inconclusive("RouteUDP rig: no datagram was echoed back (driver problem, not a verdict): %s" % udp.get("notes"))
     ctx.log("RouteUDP: %d datagrams sent, %d echoed, %d violations" % (udp["stats"].get("datagrams_sent", 0),
             udp["stats"].get("datagrams_echoed", 0), len(udp.get("violations", []))))
-    return {"evaluations": res["evaluations"] + udp["evaluations"], "distinct_nontrivial": res["distinct_nontrivial"] + udp["distinct_nontrivial"],
+    return {"evaluations": res["evaluations"] + udp["evaluations"] + conc["evaluations"],
+            "distinct_nontrivial": res["distinct_nontrivial"] + udp["distinct_nontrivial"] + conc["distinct_nontrivial"],
             "samples": res["samples"][:2] + udp["samples"][:1], "traces": len(g.behaviours),
             "routeudp": {k: v for k, v in udp["stats"].items() if not k.startswith("violations")}}
 
